@@ -304,6 +304,145 @@ func runC01(p *core.Prog, r *core.Result) {
 
 	// ---- R1.9 a source is compared by a fresh hash of its current contents
 	checkSourceCompare(p, r, "R1.9")
+
+	// ---- R1.11 lists handed to module code are not shared
+	checkListsFresh(p, r, "R1.11")
+}
+
+// checkListsFresh implements R1.11. starlark.NewList does not copy its argument; the rule follows the backing array of
+// the argument (append, re-slicing, phis, local cells) back to where it was allocated and forward to where it is kept.
+func checkListsFresh(p *core.Prog, r *core.Result, rule string) {
+	n := 0
+	for _, fn := range p.ModuleFuncs() {
+		k := 0
+		for _, c := range core.Calls(fn) {
+			if !core.IsCallTo(c, pkgStar, "NewList") || len(c.Common().Args) != 1 {
+				continue
+			}
+			n++
+			k++
+			construct := fmt.Sprintf("%s#NewList-%d", fname(fn), k)
+			// backward: where does the backing array come from?
+			web := map[ssa.Value]bool{}
+			shared := ""
+			var back func(v ssa.Value, depth int)
+			back = func(v ssa.Value, depth int) {
+				if v == nil || web[v] || depth > 40 {
+					return
+				}
+				web[v] = true
+				switch x := v.(type) {
+				case *ssa.Const, *ssa.MakeSlice:
+				case *ssa.Phi:
+					for _, e := range x.Edges {
+						back(e, depth+1)
+					}
+				case *ssa.Slice:
+					back(x.X, depth+1)
+				case *ssa.ChangeType:
+					back(x.X, depth+1)
+				case *ssa.Convert:
+					back(x.X, depth+1)
+				case *ssa.Alloc:
+					// an array literal / a local: fresh
+				case *ssa.Call:
+					if b, ok := x.Call.Value.(*ssa.Builtin); ok && b.Name() == "append" {
+						back(x.Call.Args[0], depth+1)
+						return
+					}
+					cal := core.Callee(x)
+					if cal != nil && (core.CalleeKey(cal) == "slices.Clone" || core.CalleeKey(cal) == "slices.Sorted" || core.CalleeKey(cal) == "slices.Collect") {
+						return
+					}
+					shared = "the result of a call (" + x.String() + ") whose backing array is not known to be private"
+				case *ssa.UnOp:
+					if x.Op != token.MUL {
+						return
+					}
+					switch a := x.X.(type) {
+					case *ssa.Alloc:
+						for _, f := range core.WithAnons(core.Outer(a.Parent())) {
+							core.Instrs(f, func(in ssa.Instruction) {
+								if st, ok := in.(*ssa.Store); ok && st.Addr == ssa.Value(a) {
+									back(st.Val, depth+1)
+								}
+							})
+						}
+					case *ssa.FreeVar:
+						if b := core.Binding(a); b != nil {
+							if al, ok := b.(*ssa.Alloc); ok {
+								for _, f := range core.WithAnons(core.Outer(al.Parent())) {
+									core.Instrs(f, func(in ssa.Instruction) {
+										if st, ok := in.(*ssa.Store); ok && (st.Addr == ssa.Value(al) || core.SingleStore(st.Addr) == nil && isFreeVarOf(st.Addr, al)) {
+											back(st.Val, depth+1)
+										}
+									})
+								}
+								return
+							}
+						}
+						shared = "a captured variable that cannot be resolved"
+					default:
+						shared = "state that outlives the call (" + core.Path(x.X) + ")"
+					}
+				case *ssa.Extract:
+					if lk, ok := x.Tuple.(*ssa.Lookup); ok {
+						shared = "an entry of the map " + core.Path(lk.X)
+						return
+					}
+					shared = "a component of " + x.Tuple.String()
+				case *ssa.Lookup:
+					shared = "an entry of the map " + core.Path(x.X)
+				case *ssa.Parameter:
+					shared = "the caller's slice " + x.Name()
+				default:
+					shared = "a value the rule cannot classify (" + v.String() + ")"
+				}
+			}
+			back(c.Common().Args[0], 0)
+			// forward: is any value of the web kept somewhere that outlives the call?
+			kept := ""
+			for v := range web {
+				refs := v.Referrers()
+				if refs == nil {
+					continue
+				}
+				for _, ref := range *refs {
+					switch x := ref.(type) {
+					case *ssa.MapUpdate:
+						if x.Value == v {
+							kept = "stored into the map " + core.Path(x.Map)
+						}
+					case *ssa.Store:
+						if x.Val != v {
+							continue
+						}
+						switch a := x.Addr.(type) {
+						case *ssa.Alloc:
+						case *ssa.FreeVar:
+							_ = a
+						default:
+							kept = "stored into " + core.Path(x.Addr)
+						}
+					}
+				}
+			}
+			switch {
+			case shared != "":
+				r.Bad(rule, construct, p.InstrPos(c.(ssa.Instruction)), "the list handed to module code is backed by %s: starlark.NewList does not copy, so every list built from it shares one array - module code that extends or edits one of them in place (srcs += [...], srcs.remove(x)) rewrites the others, a source drops out of another target's declared sources, and editing that file no longer re-runs the target", shared)
+			case kept != "":
+				r.Bad(rule, construct, p.InstrPos(c.(ssa.Instruction)), "the slice backing the list handed to module code is also %s: the next list built from it shares the array, and an in-place edit by module code rewrites both - a source can silently drop out of a target's declared sources", kept)
+			default:
+				r.OK(rule, construct, p.InstrPos(c.(ssa.Instruction)), "backed by a slice built in this call and kept nowhere else")
+			}
+		}
+	}
+	r.Floor(rule, n, 3, "starlark.NewList calls in the module")
+}
+
+func isFreeVarOf(addr ssa.Value, cell *ssa.Alloc) bool {
+	fv, ok := addr.(*ssa.FreeVar)
+	return ok && core.Binding(fv) == ssa.Value(cell)
 }
 
 // checkStampDependsOnDeps: R1.3.
